@@ -1,12 +1,1160 @@
-//! C17 - not implemented yet
+//! C17 - bit-level arithmetic helpers are exact: BinaryAdd (sum mod 2^w, carry-out), Mux, Clip2K,
+//! LongDivision (floored quotient and remainder).
+//!
+//! As in C16: one graph per configuration built with the real builder, instantiated and inlined by
+//! the real passes, evaluated once (or a few times) by the real evaluator on arrays holding all
+//! operands. Oracles are native integer arithmetic.
+use super::c16::bits::*;
 use crate::common::Report;
+use crate::vals;
+use ciphercore_base::custom_ops::CustomOperation;
+use ciphercore_base::data_types::{tuple_type, ScalarType, BIT};
+use ciphercore_base::ops::adder::BinaryAdd;
+use ciphercore_base::ops::clip::Clip2K;
+use ciphercore_base::ops::long_division::LongDivision;
+use ciphercore_base::ops::multiplexer::Mux;
+use rayon::prelude::*;
+use serde::{Deserialize, Serialize};
+use serde_json::{json, Value as J};
 
-pub fn run(_r: &Report) -> i32 {
-    println!("MACHINERY-ERROR property=C17 check not implemented");
-    2
+#[derive(Clone, Debug, Serialize, Deserialize, Default)]
+struct Spec {
+    /// add | mux | muxa | clip | div
+    kind: String,
+    /// width (dividend width for div)
+    w: u32,
+    /// divisor width (div only)
+    wd: u32,
+    /// add: overflow bit requested; div: signed
+    flag: bool,
+    /// clip: k; mux: index of the shape triple
+    k: u64,
+    layout: String,
+    mode: String,
+    /// muxa: scalar type of the choices
+    st: String,
+    thorough: bool,
+    /// clip rows: the input list is cut into `chunks` equal parts, this job evaluates part `chunk`
+    /// (chunks == 0: the structured subset of the 16-bit inputs)
+    #[serde(default)]
+    chunk: u32,
+    #[serde(default)]
+    chunks: u32,
 }
 
-pub fn replay(_r: &Report, _rec: &serde_json::Value) -> i32 {
-    println!("MACHINERY-ERROR property=C17 replay not implemented");
-    2
+impl Spec {
+    fn key(&self) -> String {
+        match self.kind.as_str() {
+            "add" => format!("add:ov={}:w{}:{}:{}", self.flag, self.w, self.layout, self.mode),
+            "mux" => format!("mux:bits:shapes{}", self.k),
+            "muxa" => format!("mux:{}:{}", self.st, self.layout),
+            "clip" => format!(
+                "clip:w{}:k{}:{}:{}{}",
+                self.w,
+                self.k,
+                self.layout,
+                self.mode,
+                if self.layout != "rows" {
+                    String::new()
+                } else if self.chunks == 0 {
+                    ":subset".to_string()
+                } else {
+                    format!(":part{}of{}", self.chunk + 1, self.chunks)
+                }
+            ),
+            _ => format!(
+                "div:{}:w{}/{}:{}:{}{}",
+                if self.flag { "signed" } else { "unsigned" },
+                self.w,
+                self.wd,
+                self.layout,
+                self.mode,
+                if self.chunks > 1 {
+                    format!(":full:part{}of{}", self.chunk + 1, self.chunks)
+                } else if self.thorough {
+                    ":full".to_string()
+                } else {
+                    String::new()
+                }
+            ),
+        }
+    }
+    fn json(&self) -> J {
+        serde_json::to_value(self).unwrap()
+    }
+}
+
+// ---------------------------------------------------------------------------------------------
+// BinaryAdd
+
+/// operand pairs of the paired layout: all pairs for w <= 8, else all pairs of the value alphabet plus,
+/// for every bit i and in both orders: (2^i-1, 1) carry chain 0..i; (2^w-1, 2^i) and (ones<<i, 2^i)
+/// chains from bit i through the top (carry-out); (2^i, 2^i) generate at bit i only;
+/// (pattern with all lower bits set, 1); and the full-length chains (x, !x) [no carry], (x, !x + 1) [carry
+/// through every position], (2^w-1, 1), (2^w-1, 2^w-1)
+fn add_pairs(w: u32) -> (Vec<u128>, Vec<u128>) {
+    let mut a = vec![];
+    let mut b = vec![];
+    if w <= 8 {
+        let m = 1u128 << w;
+        for x in 0..m {
+            for y in 0..m {
+                a.push(x);
+                b.push(y);
+            }
+        }
+        return (a, b);
+    }
+    let m = mask(w);
+    let v = value_alphabet(w);
+    for x in v.iter() {
+        for y in v.iter() {
+            a.push(*x);
+            b.push(*y);
+        }
+    }
+    let p55 = 0x5555_5555_5555_5555_5555_5555_5555_5555u128 & m;
+    let mut both = |x: u128, y: u128| {
+        a.push(x & m);
+        b.push(y & m);
+        a.push(y & m);
+        b.push(x & m);
+    };
+    for x in [p55, !p55 & m, 0, m, 1u128 << (w - 1)] {
+        both(x, !x);
+        both(x, (!x).wrapping_add(1));
+    }
+    for i in 0..w {
+        let bit = 1u128 << i;
+        let below = bit - 1;
+        both(below, 1);
+        both(m, bit);
+        both(m & !below, bit);
+        both(bit, bit);
+        both((p55 & !(bit | below)) | below, 1);
+    }
+    (a, b)
+}
+
+fn run_add(spec: &Spec) -> JobOut {
+    let mut out = JobOut::default();
+    let w = spec.w;
+    let sig = |kind: &str| format!("C17:add:ov={}:{}:{}", spec.flag, kind, spec.layout);
+    let (sa, sb, evals) = layout(w, &spec.layout, add_pairs);
+    let built = match build(
+        CustomOperation::new(BinaryAdd { overflow_bit: spec.flag }),
+        &[bit_t(&sa), bit_t(&sb)],
+        &spec.mode,
+    ) {
+        Ok(b) => b,
+        Err(e) => {
+            if !w.is_power_of_two() && e.contains("power of 2") {
+                out.count("add_non_power_of_two_rejected_as_documented", 1);
+            } else {
+                out.violation(
+                    &sig("rejected"),
+                    format!("{} rejected for {:?} x {:?}: {}", spec.key(), sa, sb, e),
+                    json!({"spec": spec.json(), "error": e}),
+                );
+            }
+            return out;
+        }
+    };
+    out.distinct.push(spec.key());
+    out.count("graphs_built", 1);
+    out.count("graph_nodes", built.nodes);
+    let la = &sa[..sa.len() - 1];
+    let lb = &sb[..sb.len() - 1];
+    let lead = bcast_shape(la, lb).expect("layout shapes broadcast");
+    let n = numel(&lead);
+    let mut s_sum = lead.clone();
+    s_sum.push(w as u64);
+    let mut s_ov = lead.clone();
+    s_ov.push(1);
+    let exp_t = if spec.flag { tuple_type(vec![bit_t(&s_sum), bit_t(&s_ov)]) } else { bit_t(&s_sum) };
+    if built.out_t != exp_t {
+        out.violation(
+            &sig("type"),
+            format!("{}: output type {} instead of {}", spec.key(), built.out_t, exp_t),
+            json!({"spec": spec.json(), "observed_type": format!("{}", built.out_t), "expected_type": format!("{}", exp_t)}),
+        );
+        return out;
+    }
+    let m = mask(w);
+    let (mut n_pairs, mut n_carry, mut n_chain) = (0u64, 0u64, 0u64);
+    for (ei, (a, b)) in evals.iter().enumerate() {
+        out.count("graph_evaluations", 1);
+        let v = match eval(&built, &[pack_words(a, w), pack_words(b, w)]) {
+            Ok(v) => v,
+            Err(e) => {
+                out.violation(
+                    &sig("eval-error"),
+                    format!("{}: evaluation failed: {}", spec.key(), e),
+                    json!({"spec": spec.json(), "evaluation": ei, "a": hex_list(a), "b": hex_list(b), "error": e}),
+                );
+                continue;
+            }
+        };
+        let decoded = if spec.flag {
+            match v.to_vector() {
+                Ok(vs) if vs.len() == 2 => match (unpack_words(&vs[0], n, w), unpack_bits(&vs[1], n)) {
+                    (Some(s), Some(o)) => Some((s, o)),
+                    _ => None,
+                },
+                _ => None,
+            }
+        } else {
+            unpack_words(&v, n, w).map(|s| (s, vec![]))
+        };
+        let (sums, ovs) = match decoded {
+            Some(d) => d,
+            None => {
+                out.violation(
+                    &sig("layout"),
+                    format!("{}: output value does not have the layout of {}", spec.key(), exp_t),
+                    json!({"spec": spec.json(), "evaluation": ei, "a": hex_list(a), "b": hex_list(b)}),
+                );
+                continue;
+            }
+        };
+        for idx in 0..n {
+            let x = a[bcast_index(&lead, idx, la)];
+            let y = b[bcast_index(&lead, idx, lb)];
+            let (s128, c128) = x.overflowing_add(y);
+            let exp_sum = s128 & m;
+            let exp_ov = if w == 128 { c128 as u128 } else { (s128 >> w) & 1 };
+            n_pairs += 1;
+            n_carry += exp_ov as u64;
+            // a carry generated at bit 0 that is propagated by every higher position
+            if x & y & 1 == 1 && ((x ^ y) | 1) & m == m {
+                n_chain += 1;
+            }
+            if sums[idx] != exp_sum {
+                out.violation(
+                    &sig("wrong-sum"),
+                    format!("BinaryAdd(overflow_bit={}) w={} {:?}x{:?}: {} + {} = {} but expected {}",
+                        spec.flag, w, sa, sb, hex(x), hex(y), hex(sums[idx]), hex(exp_sum)),
+                    json!({"spec": spec.json(), "evaluation": ei, "element": idx, "x": hex(x), "y": hex(y),
+                           "observed": hex(sums[idx]), "expected": hex(exp_sum), "a": hex_list(a), "b": hex_list(b)}),
+                );
+            }
+            if spec.flag && ovs[idx] != exp_ov {
+                out.violation(
+                    &sig("wrong-carry"),
+                    format!("BinaryAdd(overflow_bit=true) w={} {:?}x{:?}: carry-out of {} + {} is {} but expected {}",
+                        w, sa, sb, hex(x), hex(y), ovs[idx], exp_ov),
+                    json!({"spec": spec.json(), "evaluation": ei, "element": idx, "x": hex(x), "y": hex(y),
+                           "observed": hex(ovs[idx]), "expected": hex(exp_ov), "a": hex_list(a), "b": hex_list(b)}),
+                );
+            }
+        }
+        if ei == 0 {
+            out.samples.push(json!({"spec": spec.key(), "shapes": [sa, sb], "pairs_in_first_evaluation": n,
+                "first_pair": [hex(a[0]), hex(b[0])], "observed_sum": hex(sums[0])}));
+        }
+    }
+    out.count("evaluations", n_pairs);
+    out.count("add_pairs", n_pairs);
+    if spec.flag {
+        out.count("add_carry_out_expected", n_carry);
+    }
+    out.count("add_full_length_carry_chains", n_chain);
+    if la != lb {
+        out.count("broadcast_cases", n_pairs);
+    }
+    if w <= 8 && (spec.layout == "paired" || spec.layout == "outer") {
+        out.count("exhaustive_sweeps", 1);
+    }
+    out
+}
+
+// ---------------------------------------------------------------------------------------------
+// Mux
+
+/// (flag shape, choice-1 shape, choice-0 shape); the second one is the documentation's example
+fn mux_triples() -> Vec<(Vec<u64>, Vec<u64>, Vec<u64>)> {
+    vec![
+        (vec![], vec![], vec![]),
+        (vec![1], vec![3], vec![3]),
+        (vec![3], vec![], vec![3]),
+        (vec![], vec![2, 2], vec![2]),
+        (vec![2, 1, 1], vec![1, 2, 1], vec![1, 1, 2]),
+        (vec![2, 1], vec![2, 2], vec![2]),
+        (vec![2], vec![2, 2], vec![2, 2]),
+        (vec![2, 3], vec![1, 3], vec![2, 1]),
+    ]
+}
+
+fn mux_out_shape(sf: &[u64], s1: &[u64], s0: &[u64]) -> Vec<u64> {
+    bcast_shape(&bcast_shape(sf, s1).expect("mux shapes"), s0).expect("mux shapes")
+}
+
+/// all assignments of bits to the three operands of one shape triple
+fn run_mux_bits(spec: &Spec) -> JobOut {
+    let mut out = JobOut::default();
+    let (sf, s1, s0) = mux_triples()[spec.k as usize].clone();
+    let sig = |kind: &str| format!("C17:mux:bits:{}", kind);
+    let built = match build(CustomOperation::new(Mux {}), &[bit_t(&sf), bit_t(&s1), bit_t(&s0)], &spec.mode) {
+        Ok(b) => b,
+        Err(e) => {
+            out.violation(
+                &sig("rejected"),
+                format!("Mux rejected for bit shapes {:?},{:?},{:?}: {}", sf, s1, s0, e),
+                json!({"spec": spec.json(), "error": e}),
+            );
+            return out;
+        }
+    };
+    out.distinct.push(spec.key());
+    out.count("graphs_built", 1);
+    out.count("graph_nodes", built.nodes);
+    let so = mux_out_shape(&sf, &s1, &s0);
+    let exp_t = bit_t(&so);
+    if built.out_t != exp_t {
+        out.violation(
+            &sig("type"),
+            format!("Mux {:?},{:?},{:?}: output type {} instead of {}", sf, s1, s0, built.out_t, exp_t),
+            json!({"spec": spec.json(), "observed_type": format!("{}", built.out_t), "expected_type": format!("{}", exp_t)}),
+        );
+        return out;
+    }
+    let (nf, n1, n0, no) = (numel(&sf), numel(&s1), numel(&s0), numel(&so));
+    let total = nf + n1 + n0;
+    let (mut cases, mut sel1, mut sel0) = (0u64, 0u64, 0u64);
+    for asg in 0u64..(1u64 << total) {
+        let bits = |off: usize, n: usize| -> Vec<u128> { (0..n).map(|i| ((asg >> (off + i)) & 1) as u128).collect() };
+        let f = bits(0, nf);
+        let c1 = bits(nf, n1);
+        let c0 = bits(nf + n1, n0);
+        out.count("graph_evaluations", 1);
+        let case = || json!({"spec": spec.json(), "assignment": asg, "flag": hex_list(&f), "choice1": hex_list(&c1), "choice0": hex_list(&c0)});
+        let v = match eval(&built, &[pack_words(&f, 1), pack_words(&c1, 1), pack_words(&c0, 1)]) {
+            Ok(v) => v,
+            Err(e) => {
+                out.violation(&sig("eval-error"), format!("Mux {:?},{:?},{:?}: evaluation failed: {}", sf, s1, s0, e), case());
+                continue;
+            }
+        };
+        let got = match unpack_bits(&v, no) {
+            Some(g) => g,
+            None => {
+                out.violation(&sig("layout"), format!("Mux {:?},{:?},{:?}: bad output layout", sf, s1, s0), case());
+                continue;
+            }
+        };
+        for idx in 0..no {
+            let fl = f[bcast_index(&so, idx, &sf)];
+            let x1 = c1[bcast_index(&so, idx, &s1)];
+            let x0 = c0[bcast_index(&so, idx, &s0)];
+            let exp = if fl == 1 { x1 } else { x0 };
+            cases += 1;
+            if x1 != x0 {
+                if fl == 1 {
+                    sel1 += 1
+                } else {
+                    sel0 += 1
+                }
+            }
+            if got[idx] != exp {
+                let mut c = case();
+                c["element"] = json!(idx);
+                c["observed"] = json!(hex(got[idx]));
+                c["expected"] = json!(hex(exp));
+                out.violation(
+                    &sig("wrong"),
+                    format!("Mux on bits, shapes {:?},{:?},{:?}, element {}: flag={} choice1={} choice0={} gives {} instead of {}",
+                        sf, s1, s0, idx, fl, x1, x0, got[idx], exp),
+                    c,
+                );
+            }
+        }
+    }
+    out.samples.push(json!({"spec": spec.key(), "shapes": [sf, s1, s0], "assignments": 1u64 << total, "output_elements": no}));
+    out.count("evaluations", cases);
+    out.count("mux_cases", cases);
+    out.count("mux_selected_first", sel1);
+    out.count("mux_selected_second", sel0);
+    if sf != so || s1 != so || s0 != so {
+        out.count("broadcast_cases", cases);
+    }
+    out
+}
+
+fn st_of(name: &str) -> Option<ScalarType> {
+    vals::ALL_ST.iter().find(|s| format!("{}", s) == name).cloned()
+}
+
+/// Mux with integer choices: flag [2,1,1] x choice1 [1,K,1] x choice0 [1,1,K] (all combinations of the
+/// flag with the value alphabet in one evaluation), "scalar": three scalars, one evaluation per combination
+fn run_mux_arith(spec: &Spec) -> JobOut {
+    let mut out = JobOut::default();
+    let st = st_of(&spec.st).expect("scalar type");
+    let bitsw = vals::st_bits(&st);
+    let m = mask(bitsw);
+    let alpha: Vec<u128> = vec![0, 1, m, 1u128 << (bitsw - 1), (1u128 << (bitsw - 1)) - 1, 0x5555_5555_5555_5555_5555_5555_5555_5555 & m];
+    let k = alpha.len() as u64;
+    let sig = |kind: &str| format!("C17:mux:{}:{}", spec.st, kind);
+    let mut evals: Vec<(Vec<u128>, Vec<u128>, Vec<u128>)> = vec![];
+    let (sf, s1, s0) = if spec.layout == "outer" {
+        evals.push((vec![0, 1], alpha.clone(), alpha.clone()));
+        (vec![2u64, 1, 1], vec![1, k, 1], vec![1, 1, k])
+    } else {
+        for f in [0u128, 1] {
+            for x in alpha.iter() {
+                for y in alpha.iter() {
+                    evals.push((vec![f], vec![*x], vec![*y]));
+                }
+            }
+        }
+        (vec![], vec![], vec![])
+    };
+    let built = match build(CustomOperation::new(Mux {}), &[bit_t(&sf), typ(&s1, st.clone()), typ(&s0, st.clone())], &spec.mode) {
+        Ok(b) => b,
+        Err(e) => {
+            out.violation(
+                &sig("rejected"),
+                format!("Mux rejected for flag {:?} and {} choices {:?},{:?}: {}", sf, spec.st, s1, s0, e),
+                json!({"spec": spec.json(), "error": e}),
+            );
+            return out;
+        }
+    };
+    out.distinct.push(spec.key());
+    out.count("graphs_built", 1);
+    out.count("graph_nodes", built.nodes);
+    let so = mux_out_shape(&sf, &s1, &s0);
+    let exp_t = typ(&so, st.clone());
+    if built.out_t != exp_t {
+        out.violation(
+            &sig("type"),
+            format!("Mux {}: output type {} instead of {}", spec.key(), built.out_t, exp_t),
+            json!({"spec": spec.json(), "observed_type": format!("{}", built.out_t), "expected_type": format!("{}", exp_t)}),
+        );
+        return out;
+    }
+    let no = numel(&so);
+    let (mut cases, mut sel1, mut sel0) = (0u64, 0u64, 0u64);
+    for (ei, (f, c1, c0)) in evals.iter().enumerate() {
+        out.count("graph_evaluations", 1);
+        let case = || json!({"spec": spec.json(), "evaluation": ei, "flag": hex_list(f), "choice1": hex_list(c1), "choice0": hex_list(c0)});
+        let v = match eval(&built, &[pack_words(f, 1), vals::arr_value(c1, &st), vals::arr_value(c0, &st)]) {
+            Ok(v) => v,
+            Err(e) => {
+                out.violation(&sig("eval-error"), format!("Mux {}: evaluation failed: {}", spec.key(), e), case());
+                continue;
+            }
+        };
+        let got = match vals::arr_elems(&v, &exp_t) {
+            Some(g) => g,
+            None => {
+                out.violation(&sig("layout"), format!("Mux {}: bad output layout", spec.key()), case());
+                continue;
+            }
+        };
+        for idx in 0..no {
+            let fl = f[bcast_index(&so, idx, &sf)];
+            let x1 = c1[bcast_index(&so, idx, &s1)];
+            let x0 = c0[bcast_index(&so, idx, &s0)];
+            let exp = if fl == 1 { x1 } else { x0 };
+            cases += 1;
+            if x1 != x0 {
+                if fl == 1 {
+                    sel1 += 1
+                } else {
+                    sel0 += 1
+                }
+            }
+            if got[idx] != exp {
+                let mut c = case();
+                c["element"] = json!(idx);
+                c["observed"] = json!(hex(got[idx]));
+                c["expected"] = json!(hex(exp));
+                // one defect class gets one signature: the selection is exactly the opposite one
+                // (observed the other operand) for every type; anything else is keyed by the type
+                let other = if fl == 1 { x0 } else { x1 };
+                let s = if got[idx] == other {
+                    "C17:mux:integer-choices:reversed-selection".to_string()
+                } else {
+                    sig("wrong")
+                };
+                out.violation(
+                    &s,
+                    format!("Mux on {} choices ({}): flag={} choice1={} choice0={} gives {} instead of {}",
+                        spec.st, spec.layout, fl, hex(x1), hex(x0), hex(got[idx]), hex(exp)),
+                    c,
+                );
+            }
+        }
+    }
+    out.count("evaluations", cases);
+    out.count("mux_cases", cases);
+    out.count("mux_integer_cases", cases);
+    out.count("mux_selected_first", sel1);
+    out.count("mux_selected_second", sel0);
+    if spec.layout == "outer" {
+        out.count("broadcast_cases", cases);
+    }
+    out
+}
+
+// ---------------------------------------------------------------------------------------------
+// Clip2K
+
+/// all 2^w inputs for w <= 16; otherwise 0, +-1, +-2, min, min+1, max, max-1 and, for every bit j,
+/// 2^j, 2^j-1, 2^j+1, -(2^j)
+fn clip_inputs(w: u32) -> Vec<u128> {
+    if w <= 16 {
+        return (0..(1u128 << w)).collect();
+    }
+    let m = mask(w);
+    let mut v: Vec<u128> = vec![];
+    let mut push = |x: u128| {
+        let x = x & m;
+        if !v.contains(&x) {
+            v.push(x);
+        }
+    };
+    let min = 1u128 << (w - 1);
+    for x in [0, 1, m, 2, m - 1, min, min + 1, min - 1, min - 2] {
+        push(x);
+    }
+    for j in 0..w {
+        let p = 1u128 << j;
+        push(p);
+        push(p - 1);
+        push(p + 1);
+        push(p.wrapping_neg());
+    }
+    v
+}
+
+fn clip_oracle(x: u128, w: u32, k: u64) -> u128 {
+    let sx = sext(x, w);
+    // k <= w-2 <= 126, so 2^k is representable
+    let top = 1i128 << k;
+    if sx <= 0 {
+        0
+    } else if sx >= top {
+        top as u128
+    } else {
+        x
+    }
+}
+
+fn run_clip(spec: &Spec) -> JobOut {
+    let mut out = JobOut::default();
+    let w = spec.w;
+    let k = spec.k;
+    let sig = |kind: &str| format!("C17:clip:{}:{}", kind, spec.layout);
+    let mut all = clip_inputs(w);
+    if spec.layout == "rows" {
+        if spec.chunks == 0 {
+            // quick-tier subset of the 16-bit inputs: all low bytes under 16 boundary high bytes
+            let highs: [u128; 16] = [0, 1, 2, 3, 4, 8, 0x10, 0x20, 0x40, 0x55, 0x7e, 0x7f, 0x80, 0x81, 0xfe, 0xff];
+            all.retain(|x| w <= 8 || highs.contains(&(x >> (w - 8))));
+        } else {
+            let per = (all.len() + spec.chunks as usize - 1) / spec.chunks as usize;
+            let lo = (spec.chunk as usize * per).min(all.len());
+            let hi = (lo + per).min(all.len());
+            all = all[lo..hi].to_vec();
+        }
+    }
+    // rows: one [N,w] array; single: [w], a handful of inputs, one evaluation each; rank3: [2,3,w]
+    let (shape, evals): (Vec<u64>, Vec<Vec<u128>>) = match spec.layout.as_str() {
+        "rows" => (vec![all.len() as u64, w as u64], vec![all.clone()]),
+        "single" => {
+            let top = 1u128 << k;
+            let m = mask(w);
+            let mut xs = vec![0u128, 1, m, top, top.wrapping_sub(1) & m, (top + 1) & m, 1u128 << (w - 1), (1u128 << (w - 1)) - 1, top << 1];
+            xs.dedup();
+            (vec![w as u64], xs.into_iter().map(|x| vec![x & m]).collect())
+        }
+        _ => {
+            let top = 1u128 << k;
+            let m = mask(w);
+            let xs = vec![0u128, top.wrapping_sub(1) & m, top, m, (top + 1) & m, 1u128 << (w - 1),
+                          1, (1u128 << (w - 1)) - 1, (top << 1) & m, m - 1, 2 & m, top >> 1];
+            (vec![2, 3, w as u64], vec![xs[0..6].to_vec(), xs[6..12].to_vec()])
+        }
+    };
+    let built = match build(CustomOperation::new(Clip2K { k }), &[bit_t(&shape)], &spec.mode) {
+        Ok(b) => b,
+        Err(e) => {
+            out.violation(
+                &sig("rejected"),
+                format!("{} rejected for {:?}: {}", spec.key(), shape, e),
+                json!({"spec": spec.json(), "error": e}),
+            );
+            return out;
+        }
+    };
+    out.distinct.push(spec.key());
+    out.count("graphs_built", 1);
+    out.count("graph_nodes", built.nodes);
+    let exp_t = bit_t(&shape);
+    if built.out_t != exp_t {
+        out.violation(
+            &sig("type"),
+            format!("{}: output type {} instead of {}", spec.key(), built.out_t, exp_t),
+            json!({"spec": spec.json(), "observed_type": format!("{}", built.out_t), "expected_type": format!("{}", exp_t)}),
+        );
+        return out;
+    }
+    let (mut cases, mut neg, mut large, mut pass) = (0u64, 0u64, 0u64, 0u64);
+    for (ei, xs) in evals.iter().enumerate() {
+        out.count("graph_evaluations", 1);
+        let v = match eval(&built, &[pack_words(xs, w)]) {
+            Ok(v) => v,
+            Err(e) => {
+                out.violation(
+                    &sig("eval-error"),
+                    format!("{}: evaluation failed: {}", spec.key(), e),
+                    json!({"spec": spec.json(), "evaluation": ei, "input": hex_list(xs), "error": e}),
+                );
+                continue;
+            }
+        };
+        let got = match unpack_words(&v, xs.len(), w) {
+            Some(g) => g,
+            None => {
+                out.violation(
+                    &sig("layout"),
+                    format!("{}: bad output layout", spec.key()),
+                    json!({"spec": spec.json(), "evaluation": ei, "input": hex_list(xs)}),
+                );
+                continue;
+            }
+        };
+        for (idx, x) in xs.iter().enumerate() {
+            let exp = clip_oracle(*x, w, k);
+            cases += 1;
+            let sx = sext(*x, w);
+            if sx < 0 {
+                neg += 1
+            } else if sx >= (1i128 << k) {
+                large += 1
+            } else if sx > 0 {
+                pass += 1
+            }
+            if got[idx] != exp {
+                out.violation(
+                    &sig("wrong"),
+                    format!("Clip2K(k={}) on {}-bit input {} ({}; shape {:?}, {}) gives {} instead of {}",
+                        k, w, sx, hex(*x), shape, spec.mode, hex(got[idx]), hex(exp)),
+                    json!({"spec": spec.json(), "evaluation": ei, "element": idx, "x": hex(*x),
+                           "observed": hex(got[idx]), "expected": hex(exp), "input": hex_list(xs)}),
+                );
+            }
+        }
+        if ei == 0 && spec.layout == "rows" {
+            out.samples.push(json!({"spec": spec.key(), "shape": shape, "inputs": xs.len()}));
+        }
+    }
+    out.count("evaluations", cases);
+    out.count("clip_cases", cases);
+    out.count("clip_negative_inputs", neg);
+    out.count("clip_inputs_at_or_above_2k", large);
+    out.count("clip_inputs_passed_through", pass);
+    if w <= 16 && spec.layout == "rows" && spec.chunks > 0 && spec.chunk == 0 {
+        out.count("exhaustive_sweeps", 1);
+    }
+    out
+}
+
+// ---------------------------------------------------------------------------------------------
+// LongDivision
+
+/// floored division by native arithmetic; operands are bit patterns of wn / wd bits
+fn div_oracle(signed: bool, wn: u32, wd: u32, n: u128, d: u128) -> (u128, u128) {
+    if signed {
+        let ni = sext(n, wn);
+        let di = sext(d, wd);
+        let mut q = ni.wrapping_div(di);
+        let mut r = ni.wrapping_rem(di);
+        if r != 0 && ((r < 0) != (di < 0)) {
+            q -= 1;
+            r += di;
+        }
+        ((q as u128) & mask(wn), (r as u128) & mask(wd))
+    } else {
+        ((n / d) & mask(wn), (n % d) & mask(wd))
+    }
+}
+
+/// the two defining equations: q*d + r == n (mod 2^wn); r == 0 or (sign(r) == sign(d) and |r| < |d|)
+fn div_equations_hold(signed: bool, wn: u32, wd: u32, n: u128, d: u128, q: u128, r: u128) -> bool {
+    if signed {
+        let (di, qi, ri) = (sext(d, wd), sext(q, wn), sext(r, wd));
+        let lhs = (qi.wrapping_mul(di).wrapping_add(ri) as u128) & mask(wn);
+        let sign_ok = ri == 0 || ((ri < 0) == (di < 0) && ri.unsigned_abs() < di.unsigned_abs());
+        lhs == (sext(n, wn) as u128) & mask(wn) && sign_ok
+    } else {
+        let lhs = q.wrapping_mul(d).wrapping_add(r) & mask(wn);
+        lhs == n & mask(wn) && r < d
+    }
+}
+
+fn div_value_sets(signed: bool, w: u32, small: bool) -> (Vec<u128>, Vec<u128>) {
+    // divisors (non-zero) and the dividends derived from each of them are assembled by the caller
+    let m = mask(w);
+    let min = 1u128 << (w - 1);
+    let mut ds: Vec<u128> = vec![1, m, 3, min, min - 1, 0x5555_5555_5555_5555_5555_5555_5555_5555 & m];
+    if !small {
+        ds.extend([2, min + 1, 10, 10u128.wrapping_neg() & m, 7, (1u128 << (w / 2)) + 1, m - 1]);
+    }
+    let _ = signed;
+    let mut seen = vec![];
+    ds.retain(|d| {
+        let keep = *d != 0 && !seen.contains(d);
+        seen.push(*d);
+        keep
+    });
+    let ns: Vec<u128> = vec![0, 1, m, min, min - 1];
+    (ns, ds)
+}
+
+/// operand pairs (dividend pattern of wn bits, divisor pattern of wd bits), divisor non-zero
+fn div_pairs(signed: bool, wn: u32, wd: u32, thorough: bool) -> (Vec<u128>, Vec<u128>) {
+    let mut a = vec![];
+    let mut b = vec![];
+    let (mn, md) = (mask(wn), mask(wd));
+    if wn <= 4 || wd <= 4 || (wn == 8 && wd == 8 && thorough) {
+        if wn <= 16 && wd <= 16 && (wn + wd) <= 16 {
+            // all pairs with non-zero divisor
+            for n in 0..=mn {
+                for d in 1..=md {
+                    a.push(n);
+                    b.push(d);
+                }
+            }
+            return (a, b);
+        }
+    }
+    if wn == 8 && wd == 8 {
+        // quick tier: every pair of 4-bit-range operands, and complete boundary rows and columns
+        let small: Vec<u128> = if signed { (0..8).chain(248..256).collect() } else { (0..16).collect() };
+        for n in small.iter() {
+            for d in small.iter() {
+                if *d != 0 {
+                    a.push(*n);
+                    b.push(*d);
+                }
+            }
+        }
+        let rows = [0u128, 1, 2, 127, 128, 129, 254, 255];
+        for n in rows {
+            for d in 1..=255u128 {
+                a.push(n);
+                b.push(d);
+            }
+        }
+        for d in [1u128, 2, 3, 127, 128, 129, 254, 255] {
+            for n in 0..=255u128 {
+                a.push(n);
+                b.push(d);
+            }
+        }
+        return (a, b);
+    }
+    // wider types: {0, +-1, min, max, +-divisor, divisor+-1, -divisor+-1, 2*divisor} for each divisor of the alphabet;
+    // with different widths additionally the dividends whose leading bits are about the size of the divisor
+    let small = !thorough && wn.max(wd) >= 128;
+    let (ns, _) = div_value_sets(signed, wn, small);
+    let (_, ds) = div_value_sets(signed, wd, small);
+    for d in ds.iter() {
+        // the divisor's value carried over to the dividend's width
+        let dn: u128 = if signed { (sext(*d, wd) as u128) & mn } else { *d & mn };
+        let mut cand: Vec<u128> = ns.clone();
+        cand.extend([dn, dn.wrapping_neg() & mn, dn.wrapping_add(1) & mn, dn.wrapping_sub(1) & mn]);
+        if !small {
+            cand.extend([dn.wrapping_neg().wrapping_add(1) & mn, dn.wrapping_neg().wrapping_sub(1) & mn, dn.wrapping_mul(2) & mn]);
+        }
+        if wn > wd {
+            // partial remainders close to the divisor while dividend bits are still to come
+            let sh = wn - wd;
+            cand.extend([(*d << sh) & mn, ((*d << sh) | 1) & mn, ((d.wrapping_sub(1) & md) << sh) & mn,
+                         (((*d >> 1) | (1 << (wd - 1))) << (sh - 1)) & mn]);
+        }
+        let mut seen: Vec<u128> = vec![];
+        for n in cand {
+            if !seen.contains(&n) {
+                seen.push(n);
+                a.push(n);
+                b.push(*d);
+            }
+        }
+    }
+    (a, b)
+}
+
+fn run_div(spec: &Spec) -> JobOut {
+    let mut out = JobOut::default();
+    let (wn, wd, signed) = (spec.w, spec.wd, spec.flag);
+    let sgn = if signed { "signed" } else { "unsigned" };
+    let widths = if wn == wd { "same-width" } else if wn > wd { "wider-dividend" } else { "wider-divisor" };
+    let sig = |kind: &str| format!("C17:div:{}:{}:{}:{}", sgn, widths, kind, spec.layout);
+    let (mut pa, mut pb) = div_pairs(signed, wn, wd, spec.thorough);
+    if spec.chunks > 1 {
+        // the complete 8-bit sweep is cut into equal parts evaluated by separate jobs
+        let per = (pa.len() + spec.chunks as usize - 1) / spec.chunks as usize;
+        let lo = (spec.chunk as usize * per).min(pa.len());
+        let hi = (lo + per).min(pa.len());
+        pa = pa[lo..hi].to_vec();
+        pb = pb[lo..hi].to_vec();
+    }
+    let (sa, sb, evals): (Vec<u64>, Vec<u64>, Vec<(Vec<u128>, Vec<u128>)>) = match spec.layout.as_str() {
+        "paired" => (vec![pa.len() as u64, wn as u64], vec![pb.len() as u64, wd as u64], vec![(pa, pb)]),
+        "single" => {
+            let step = (pa.len() / 6).max(1);
+            let ev = (0..pa.len()).step_by(step).map(|i| (vec![pa[i]], vec![pb[i]])).collect();
+            (vec![wn as u64], vec![wd as u64], ev)
+        }
+        "b3" => {
+            // [3,wn] x [wd]
+            let step = (pa.len() / 4).max(1);
+            let ev = (0..pa.len()).step_by(step).map(|i| (window(&pa, i, 3), vec![pb[i]])).collect();
+            (vec![3, wn as u64], vec![wd as u64], ev)
+        }
+        "b3r" => {
+            // [wn] x [3,wd]
+            let step = (pa.len() / 4).max(1);
+            let ev = (0..pa.len()).step_by(step).map(|i| (vec![pa[i]], window(&pb, i, 3))).collect();
+            (vec![wn as u64], vec![3, wd as u64], ev)
+        }
+        _ => {
+            // b213: [2,1,wn] x [1,3,wd]
+            let step = (pa.len() / 4).max(1);
+            let ev = (0..pa.len()).step_by(step).map(|i| (window(&pa, i, 2), window(&pb, i + 1, 3))).collect();
+            (vec![2, 1, wn as u64], vec![1, 3, wd as u64], ev)
+        }
+    };
+    let built = match build(CustomOperation::new(LongDivision { signed }), &[bit_t(&sa), bit_t(&sb)], &spec.mode) {
+        Ok(b) => b,
+        Err(e) => {
+            if wn == 1 || wd == 1 {
+                // degenerate 1-bit words ("Empty slice" when the remainder register is shifted); not a wrong result
+                out.count("div_one_bit_operands_rejected", 1);
+            } else {
+                out.violation(
+                    &format!("C17:div:rejected:{}:{}", spec.layout, crate::common::stable_msg(&e)),
+                    format!("{} rejected for {:?} x {:?}: {}", spec.key(), sa, sb, e),
+                    json!({"spec": spec.json(), "error": e}),
+                );
+            }
+            return out;
+        }
+    };
+    out.distinct.push(spec.key());
+    out.count("graphs_built", 1);
+    out.count("graph_nodes", built.nodes);
+    let la = &sa[..sa.len() - 1];
+    let lb = &sb[..sb.len() - 1];
+    let lead = bcast_shape(la, lb).expect("layout shapes broadcast");
+    let n_out = numel(&lead);
+    let mut sq = lead.clone();
+    sq.push(wn as u64);
+    let mut sr = lead.clone();
+    sr.push(wd as u64);
+    let exp_t = tuple_type(vec![bit_t(&sq), bit_t(&sr)]);
+    if built.out_t != exp_t {
+        out.violation(
+            &sig("type"),
+            format!("{}: output type {} instead of {}", spec.key(), built.out_t, exp_t),
+            json!({"spec": spec.json(), "observed_type": format!("{}", built.out_t), "expected_type": format!("{}", exp_t)}),
+        );
+        return out;
+    }
+    let (mut cases, mut negn, mut negd, mut adj, mut minneg1, mut rem_nz) = (0u64, 0u64, 0u64, 0u64, 0u64, 0u64);
+    for (ei, (a, b)) in evals.iter().enumerate() {
+        out.count("graph_evaluations", 1);
+        let v = match eval(&built, &[pack_words(a, wn), pack_words(b, wd)]) {
+            Ok(v) => v,
+            Err(e) => {
+                out.violation(
+                    &sig("eval-error"),
+                    format!("{}: evaluation failed: {}", spec.key(), e),
+                    json!({"spec": spec.json(), "evaluation": ei, "a": hex_list(a), "b": hex_list(b), "error": e}),
+                );
+                continue;
+            }
+        };
+        let decoded = match v.to_vector() {
+            Ok(vs) if vs.len() == 2 => match (unpack_words(&vs[0], n_out, wn), unpack_words(&vs[1], n_out, wd)) {
+                (Some(q), Some(r)) => Some((q, r)),
+                _ => None,
+            },
+            _ => None,
+        };
+        let (qs, rs) = match decoded {
+            Some(d) => d,
+            None => {
+                out.violation(
+                    &sig("layout"),
+                    format!("{}: bad output layout", spec.key()),
+                    json!({"spec": spec.json(), "evaluation": ei, "a": hex_list(a), "b": hex_list(b)}),
+                );
+                continue;
+            }
+        };
+        for idx in 0..n_out {
+            let n = a[bcast_index(&lead, idx, la)];
+            let d = b[bcast_index(&lead, idx, lb)];
+            if d == 0 {
+                continue;
+            }
+            let (eq, er) = div_oracle(signed, wn, wd, n, d);
+            assert!(div_equations_hold(signed, wn, wd, n, d, eq, er), "oracle self-check failed for {} / {}", n, d);
+            cases += 1;
+            if er != 0 {
+                rem_nz += 1;
+            }
+            if signed {
+                let (ni, di) = (sext(n, wn), sext(d, wd));
+                negn += (ni < 0) as u64;
+                negd += (di < 0) as u64;
+                if er != 0 && ((ni < 0) != (di < 0)) {
+                    adj += 1;
+                }
+                if di == -1 && n == 1u128 << (wn - 1) {
+                    minneg1 += 1;
+                }
+            }
+            if qs[idx] != eq || rs[idx] != er {
+                let shown = |x: u128, w: u32| if signed { sext(x, w).to_string() } else { x.to_string() };
+                let eqs_ok = div_equations_hold(signed, wn, wd, n, d, qs[idx], rs[idx]);
+                // input class of the result: unsigned divisors above half of their range with a wider dividend
+                // form one class (the partial remainder needs wd+1 bits there), independent of the layout
+                let s = if !signed && wn > wd && d > (1u128 << (wd - 1)) {
+                    "C17:div:unsigned:wider-dividend:divisor-above-half-range:wrong".to_string()
+                } else {
+                    sig("wrong")
+                };
+                out.violation(
+                    &s,
+                    format!("LongDivision({}) {}-bit / {}-bit, shapes {:?}x{:?}: {} / {} gives (q={}, r={}) instead of (q={}, r={}); defining equations {} for the observed pair",
+                        sgn, wn, wd, sa, sb, shown(n, wn), shown(d, wd), shown(qs[idx], wn), shown(rs[idx], wd),
+                        shown(eq, wn), shown(er, wd), if eqs_ok { "hold" } else { "fail" }),
+                    json!({"spec": spec.json(), "evaluation": ei, "element": idx, "n": hex(n), "d": hex(d),
+                           "observed": [hex(qs[idx]), hex(rs[idx])], "expected": [hex(eq), hex(er)],
+                           "a": hex_list(a), "b": hex_list(b)}),
+                );
+            }
+        }
+        if ei == 0 && spec.layout == "paired" {
+            out.samples.push(json!({"spec": spec.key(), "shapes": [sa, sb], "pairs": n_out,
+                "first": {"n": hex(a[0]), "d": hex(b[0]), "q": hex(qs[0]), "r": hex(rs[0])}}));
+        }
+    }
+    out.count("evaluations", cases);
+    out.count("div_cases", cases);
+    out.count("div_nonzero_remainder", rem_nz);
+    out.count("div_negative_dividend", negn);
+    out.count("div_negative_divisor", negd);
+    out.count("div_floor_differs_from_truncation", adj);
+    out.count("div_min_over_minus_one", minneg1);
+    if la != lb {
+        out.count("broadcast_cases", cases);
+    }
+    if spec.layout == "paired" && spec.chunk == 0 && ((wn + wd <= 16 && (wn <= 4 || wd <= 4)) || (wn == 8 && wd == 8 && spec.thorough)) {
+        out.count("exhaustive_sweeps", 1);
+    }
+    out
+}
+
+// ---------------------------------------------------------------------------------------------
+
+fn run_job(spec: &Spec) -> JobOut {
+    let t0 = std::time::Instant::now();
+    let o = run_job_inner(spec);
+    if std::env::var("VERIF_PROFILE").is_ok() && t0.elapsed().as_secs_f64() > 1.0 {
+        eprintln!("profile: {:.1} s {}", t0.elapsed().as_secs_f64(), spec.key());
+    }
+    o
+}
+
+fn run_job_inner(spec: &Spec) -> JobOut {
+    match spec.kind.as_str() {
+        "add" => run_add(spec),
+        "mux" => run_mux_bits(spec),
+        "muxa" => run_mux_arith(spec),
+        "clip" => run_clip(spec),
+        _ => run_div(spec),
+    }
+}
+
+fn specs(thorough: bool) -> Vec<Spec> {
+    let mut out = vec![];
+    let s = |x: &str| x.to_string();
+    // --- Mux
+    for k in 0..mux_triples().len() {
+        out.push(Spec { kind: s("mux"), k: k as u64, mode: s("simple"), ..Default::default() });
+    }
+    for st in vals::ALL_ST.iter().filter(|t| **t != BIT) {
+        for layout in ["scalar", "outer"] {
+            out.push(Spec { kind: s("muxa"), st: format!("{}", st), layout: s(layout), mode: s("simple"), ..Default::default() });
+        }
+    }
+    // --- BinaryAdd: supported widths, then widths that must be rejected (or be exact)
+    for w in [1u32, 2, 4, 8, 16, 32, 64, 128, 3, 5, 6, 7, 12] {
+        for flag in [false, true] {
+            let mut cfgs = vec![("paired", "simple"), ("single", "simple"), ("b3", "simple"), ("b3r", "simple"), ("b213", "simple")];
+            if thorough || w != 8 {
+                cfgs.push(("outer", "simple"));
+                cfgs.push(("paired", "depth"));
+            }
+            for (layout, mode) in cfgs {
+                out.push(Spec { kind: s("add"), w, flag, layout: s(layout), mode: s(mode), ..Default::default() });
+            }
+        }
+    }
+    // --- Clip2K
+    // (the evaluator needs ~15 us per input bit of this graph, so the 2^16 x 15 sweep is rationed in the quick tier)
+    let clip_ws: Vec<u32> = if thorough { (2..=128).collect() } else { vec![2, 3, 4, 5, 6, 7, 8, 12, 16, 32, 33, 64, 128] };
+    for w in clip_ws {
+        let all_k = w <= 16 || (thorough && [24, 32, 33, 64, 65, 128].contains(&w)) || (!thorough && w == 33);
+        let ks: Vec<u64> = if all_k {
+            (0..(w as u64 - 1)).collect()
+        } else {
+            vec![0, 1, w as u64 / 2, w as u64 - 3, w as u64 - 2]
+        };
+        for k in ks {
+            // rows: (mode, chunks); chunks == 0 is the structured subset
+            let mut rows: Vec<(&str, u32)> = vec![];
+            let full = thorough || w < 16 || [0, 7, 14].contains(&k);
+            let parts = if w >= 16 { 8 } else if w >= 14 { 2 } else { 1 };
+            rows.push(("simple", if w > 16 { 1 } else if full { parts } else { 0 }));
+            // the Or-reduction is an Iterate over an associative graph: the depth-optimised inliner takes another path
+            if w <= 12 || w >= 32 {
+                rows.push(("depth", 1));
+            } else if thorough && w <= 16 {
+                rows.push(("depth", parts));
+            }
+            for (mode, chunks) in rows {
+                for chunk in 0..chunks.max(1) {
+                    out.push(Spec { kind: s("clip"), w, k, layout: s("rows"), mode: s(mode), chunk, chunks, ..Default::default() });
+                }
+            }
+            let mut cfgs = vec![("single", "simple"), ("rank3", "simple")];
+            if w <= 8 {
+                cfgs.push(("single", "depth"));
+            }
+            for (layout, mode) in cfgs {
+                out.push(Spec { kind: s("clip"), w, k, layout: s(layout), mode: s(mode), ..Default::default() });
+            }
+        }
+    }
+    // --- LongDivision
+    let mut wpairs: Vec<(u32, u32)> = vec![(1, 1), (2, 2), (4, 2), (4, 4), (8, 8), (8, 4), (4, 8), (16, 16), (16, 8), (8, 16), (32, 32), (32, 8), (64, 64), (128, 128)];
+    if thorough {
+        wpairs.extend([(16, 4), (2, 8), (64, 16), (16, 64), (128, 32), (128, 64)]);
+    }
+    for (wn, wd) in wpairs {
+        for flag in [false, true] {
+            let mut cfgs = vec![("paired", "simple")];
+            if wn <= 32 {
+                cfgs.extend([("single", "simple"), ("b3", "simple"), ("b3r", "simple"), ("b213", "simple")]);
+            }
+            if thorough && wn <= 16 {
+                cfgs.push(("paired", "depth"));
+            }
+            for (layout, mode) in cfgs {
+                let chunks = if thorough && (wn, wd) == (8, 8) && layout == "paired" { 8 } else { 1 };
+                for chunk in 0..chunks {
+                    out.push(Spec { kind: s("div"), w: wn, wd, flag, layout: s(layout), mode: s(mode), thorough, chunk, chunks, ..Default::default() });
+                }
+            }
+        }
+    }
+    out
+}
+
+pub fn run(r: &Report) -> i32 {
+    let mut sp = specs(r.tier.thorough());
+    // development knob: restrict to one kind (the run is then reported as vacuous for the other kinds)
+    if let Ok(only) = std::env::var("VERIF_C17_ONLY") {
+        sp.retain(|s| s.kind == only);
+    }
+    let outs: Vec<JobOut> = sp.par_iter().map(run_job).collect();
+    for o in outs {
+        o.merge_into(r);
+    }
+    profile_report();
+    r.finish(
+        "exploration",
+        "one graph per configuration, all operands in one array. BinaryAdd(+-overflow bit): widths 1,2,4,8 all pairs (paired [P,w]x[P,w] and outer \
+         [M,1,w]x[1,M,w] layouts), widths 16..128 pair alphabet (value alphabet squared; for every bit i carry chains 0..i, i..top, generate-only; \
+         (x,!x), (x,!x+1) full-length chains), shapes [w]x[w], [3,w]x[w], [w]x[3,w], [2,1,w]x[1,3,w]; widths 3,5,6,7,12 must be rejected. \
+         Mux: every bit assignment of 8 shape triples (incl. the documented [2,3],[1,3],[2,1]); integer choices of all 10 scalar types x value alphabet x flag. \
+         Clip2K: all inputs for widths <=16 x all k<=w-2 (quick tier: widths 2..8, 12 and 16, and at 16 bits all inputs only for k in {0,7,14}, else the 4096 inputs with 16 boundary high bytes), wider widths boundary alphabet (0,+-1,+-2,min,max, 2^j, 2^j+-1, -2^j for every j); shapes [N,w], [w], [2,3,w]; \
+         simple and depth-optimised inlining. LongDivision signed/unsigned: widths 2,4 and 8/4, 4/8 all pairs with non-zero divisor, 8/8 all 65280 pairs (quick: 4-bit-range \
+         operands plus 8 complete boundary rows and 8 columns), wider and mixed widths {0,+-1,min,max,+-d,d+-1,-d+-1,2d} x divisor alphabet. \
+         evaluations = operand tuples compared with the oracle; distinct = graph configurations built and evaluated",
+        true,
+        &[
+            "the evaluator is the library's SimpleEvaluator on the instantiated and inlined graph (plaintext semantics)",
+            "division by zero is outside the property; LongDivision on 1-bit words is rejected by the library and not counted as a violation",
+            "BinaryAdd on a width that is not a power of two must be rejected (documented); if it were accepted the sums would be checked",
+            "for widths above 16 (Clip2K) / above 8 (BinaryAdd, LongDivision) operands come from the described alphabets, not from all values",
+        ],
+        &[
+            "evaluations",
+            "graphs_built",
+            "exhaustive_sweeps",
+            "add_pairs",
+            "add_carry_out_expected",
+            "add_full_length_carry_chains",
+            "add_non_power_of_two_rejected_as_documented",
+            "mux_selected_first",
+            "mux_selected_second",
+            "mux_integer_cases",
+            "clip_negative_inputs",
+            "clip_inputs_at_or_above_2k",
+            "clip_inputs_passed_through",
+            "div_cases",
+            "div_negative_dividend",
+            "div_negative_divisor",
+            "div_floor_differs_from_truncation",
+            "div_min_over_minus_one",
+            "broadcast_cases",
+        ],
+    )
+}
+
+pub fn replay(_r: &Report, rec: &J) -> i32 {
+    let spec: Spec = match rec
+        .get("case")
+        .and_then(|c| c.get("spec"))
+        .and_then(|s| serde_json::from_value(s.clone()).ok())
+    {
+        Some(s) => s,
+        None => {
+            println!("MACHINERY-ERROR property=C17 replay record has no usable case.spec");
+            return 2;
+        }
+    };
+    let want = rec.get("signature").and_then(|s| s.as_str()).unwrap_or("");
+    println!("replaying {} (all evaluations of this graph configuration)", spec.key());
+    let out = run_job(&spec);
+    let mut hit = 0;
+    for (sig, what, case) in out.violations.iter() {
+        println!("signature={} {}", sig, what);
+        if let Some(e) = case.get("error") {
+            println!("  expected=accepted and evaluated observed={}", e);
+        } else {
+            println!(
+                "  expected={} observed={}",
+                case.get("expected").or(case.get("expected_type")).unwrap_or(&J::Null),
+                case.get("observed").or(case.get("observed_type")).unwrap_or(&J::Null)
+            );
+        }
+        if want.is_empty() || sig == want {
+            hit = 1;
+        }
+    }
+    if hit == 1 {
+        println!("REPRODUCED property=C17 signature={}", want);
+    } else {
+        println!("NOT-REPRODUCED property=C17 signature={}", want);
+    }
+    hit
 }
